@@ -269,6 +269,27 @@ def reseed(ctx: Context, cls_q: str, attrs: list[str]) -> None:
                 p = g.path_avoiding(g.entry, {ln}, sup_nodes)
                 ctx.check(p is None, "R2.order", f"{cls.name}._set_random_state:reset-after-reseed:{a}",
                           "the cursor is re-drawn after the generator was re-seeded", "the cursor is drawn from the OLD generator (before the reseed)", srs, ln.ast)
+    # no other state may carry the position in the sequence across a seed reset: every attribute that the sampling methods write (state handed from one
+    # batch to the next) is also re-assigned in code reachable from _set_random_state
+    reach_q = {f.qualname for f in reach}
+    carried: dict[str, tuple[FuncInfo, ast.stmt]] = {}
+    reset_attrs: set[str] = set()
+    for f in cls.methods.values():
+        for s_ in walk_scope(f.node):
+            if isinstance(s_, (ast.Assign, ast.AugAssign, ast.AnnAssign)) and getattr(s_, "value", None) is not None:
+                for t in (s_.targets if isinstance(s_, ast.Assign) else [s_.target]):
+                    base_t = t
+                    while isinstance(base_t, ast.Subscript):
+                        base_t = base_t.value
+                    if is_self_attr(base_t, f.self_name):
+                        if f.qualname in reach_q:
+                            reset_attrs.add(base_t.attr)  # type: ignore[union-attr]
+                        elif f.name != "__init__":
+                            carried.setdefault(base_t.attr, (f, s_))  # type: ignore[union-attr]
+    for a, (f, s_) in sorted(carried.items()):
+        ctx.check(a in reset_attrs, "R2.no-carried-state", f"{cls.name}.{f.name}:{a}", f"{a} (written by {f.name}) is re-assigned on every seed reset",
+                  f"`{src(s_)[:80]}`: {cls.name}.{f.name} keeps sequence state in self.{a}, which _set_random_state never resets - after re-seeding, the sampler continues the OLD "
+                  "seed's sequence, so the points are no longer determined by the new seed", f, s_)
     # constructor ends up with a drawn cursor too (the base constructor triggers _set_random_state)
     init = cls.methods.get("__init__")
     if init is not None:
